@@ -114,7 +114,10 @@ type execCtx struct {
 	victimRuns int
 	starved    bool
 
+	gids map[uint64]int // goroutine id -> task (transaction index or dispatcherTask), learnt at the first harness yield
+
 	// cancellation: the execution is cancelled at this scheduling step (-1 = never)
+	lockYields int
 	cancelAt   int
 	cancelDone bool
 	cancelOK   bool // the canceler returned true: no callback may follow
@@ -155,7 +158,12 @@ func (x *execCtx) yield(tx, attempt int, label string) {
 		return
 	}
 	p := &park{ch: make(chan struct{}), label: label, attempt: attempt}
+	gid := goid()
 	x.mu.Lock()
+	if x.gids == nil {
+		x.gids = map[uint64]int{}
+	}
+	x.gids[gid] = tx // lock sites of instrumented goloop code reached by this goroutine are scheduling points of this task
 	if x.parked[tx] != nil {
 		x.mu.Unlock()
 		panic(fmt.Sprintf("execsim: transaction %d parked twice", tx))
@@ -163,6 +171,27 @@ func (x *execCtx) yield(tx, attempt int, label string) {
 	x.parked[tx] = p
 	x.mu.Unlock()
 	<-p.ch
+}
+
+// lockSiteYield is installed as common.SimAcquireHook while a scheduled execution runs: every mutex
+// acquisition in the instrumented files (kit.EngineInstrument: service/transition_pe.go - the error latch the
+// workers and the dispatcher share) by a goroutine the scheduler knows is a scheduling point of that
+// goroutine's task. Lock ownership needs no modelling here: a released goroutine that then blocks on a real
+// mutex is seen as blocked by the goroutine-state introspection.
+func lockSiteYield(l interface{}, mode byte, site string) {
+	x := curExec
+	if x == nil || !x.active {
+		return
+	}
+	gid := goid()
+	x.mu.Lock()
+	tx, ok := x.gids[gid]
+	x.mu.Unlock()
+	if !ok {
+		return
+	}
+	x.lockYields++
+	x.yield(tx, x.currentAttempt(tx), "lock@"+site)
 }
 
 func goid() uint64 {
